@@ -117,8 +117,10 @@ func checkC10(p *Prog, r *Result, tier string) {
 		a.checkTxnSite(r, s, usageOrRecord)
 		a.checkClosureCtx(r, s)
 		a.checkLedger(r, s)
+		a.checkAppliedGuard(r, s)
 	}
 	r.min("LED", 1)
+	r.min("T1g", 1)
 	r.Analysed["sites_with_usage_mutators"] = n
 	if n < 9 {
 		r.undecided("count", "sites with usage mutators", "", fmt.Sprintf("found %d Txn/PCR sites with usage mutators, expected at least 9", n))
@@ -227,7 +229,7 @@ func checkRollbackSelection(p *Prog, r *Result) {
 
 func checkC11(p *Prog, r *Result, tier string) {
 	r.Technique = "compensation-completeness analysis of every utils.Txn/PCR call site (effect table, CFG reachability with branch pruning on failureByCond, closure context discipline)"
-	r.Explanation = "For all 17 Txn/PCR sites and all lasting effects of the effect table: T1 an effect in cond followed by a fallible step is undone when cond fails; T2 when then can fail every cond effect has its inverse reachable in the rollback on the failureByCond=false path; T3 an effect inside then followed by a fallible step has its inverse in the rollback; T4 PCR prepare has no effect; T5 PCR commit fan-outs record the plugins that answered and the rollback reverts exactly those; T5c the fan-out helper hands back the partial answer map together with the error; LED when the rollback walks a list filled by the condition step, each effect is appended to it before anything else can fail; SN SetNode's capacity rollback restores the value returned by the forward call with delta=false; TC closures use the context handed to them. A missing inverse means some single-fault position leaves a lasting effect after a reported failure."
+	r.Explanation = "For all 17 Txn/PCR sites and all lasting effects of the effect table: T1 an effect in cond followed by a fallible step is undone when cond fails; T1g when the rollback of a failed cond is made to depend on more than failureByCond, the extra test is a flag set right after the effect returned without error (no compensation of an effect that failed); T2 when then can fail every cond effect has its inverse reachable in the rollback on the failureByCond=false path; T3 an effect inside then followed by a fallible step has its inverse in the rollback; T4 PCR prepare has no effect; T5 PCR commit fan-outs record the plugins that answered and the rollback reverts exactly those; T5c the fan-out helper hands back the partial answer map together with the error; T5e the callbacks handed to it return the plugin's error unchanged (a refusal is never turned into a success); LED when the rollback walks a list filled by the condition step, each effect is appended to it before anything else can fail; SN SetNode's capacity rollback restores the value returned by the forward call with delta=false, and the manager does hand that value back when the forward call succeeded; TC closures use the context handed to them. A missing inverse means some single-fault position leaves a lasting effect after a reported failure."
 	r.NotCovered = "whether an inverse restores the exact prior value (except SN); faults inside compensating steps; effects outside the effect table"
 	r.Assumptions = []string{"A2", "A3", "effect table (printed under tables)"}
 	a := newTxnAnalyzer(p, r)
@@ -244,15 +246,63 @@ func checkC11(p *Prog, r *Result, tier string) {
 		a.checkTxnSite(r, s, nil)
 		a.checkClosureCtx(r, s)
 		a.checkLedger(r, s)
+		a.checkAppliedGuard(r, s)
 	}
 	r.min("LED", 1)
+	r.min("T1g", 1)
 	checkSetNodeRollback(p, r, sites)
 	checkCallHelper(p, r)
+	checkFanoutErrors(p, r, "T5e")
 }
 
 // SN: in SetNode the rollback passes the `before` value returned by the forward SetNodeResourceCapacity with delta=false.
 func checkSetNodeRollback(p *Prog, r *Result, sites []*txnSite) {
-	r.min("SN", 1)
+	r.min("SN", 3)
+	// SN (provider side): the manager fills the before/after maps it returns on the path where the change SUCCEEDED — the
+	// assignment `before[plugin] = resp.Before` is not confined to the `err != nil` branch
+	for _, nm := range []string{"SetNodeResourceCapacity", "SetNodeResourceUsage"} {
+		fn := p.Fn("resource/cobalt.Manager." + nm)
+		key := "resource/cobalt.Manager." + nm + " / the value before the change is handed back when the change succeeded"
+		if fn == nil {
+			r.undecided("SN", key, "", "not found")
+			continue
+		}
+		// the map returned first
+		var beforeObj types.Object
+		fn.inspectBody(func(n ast.Node) bool {
+			if rt, ok := n.(*ast.ReturnStmt); ok && len(rt.Results) == 3 {
+				beforeObj = fn.objOf(rt.Results[0])
+			}
+			return true
+		})
+		why := "no assignment to the returned `before` map found"
+		for _, f := range append([]*FuncNode{fn}, fn.Lits...) {
+			var stack []ast.Node
+			ast.Inspect(f.Body, func(n ast.Node) bool {
+				if n == nil {
+					stack = stack[:len(stack)-1]
+					return false
+				}
+				stack = append(stack, n)
+				as, ok := n.(*ast.AssignStmt)
+				if !ok || len(as.Lhs) != 1 {
+					return true
+				}
+				ix, ok := unparen(as.Lhs[0]).(*ast.IndexExpr)
+				if !ok || beforeObj == nil || f.objOf(ix.X) != beforeObj {
+					return true
+				}
+				why = ""
+				for i := len(stack) - 1; i >= 0; i-- {
+					if is, ok := stack[i].(*ast.IfStmt); ok && i+1 < len(stack) && stack[i+1] == ast.Node(is.Body) && strings.Contains(exprStr(is.Cond), "err != nil") {
+						why = "the returned `before` map is only filled inside `if " + exprStr(is.Cond) + "` (" + p.pos(as) + "): after a successful change the caller gets an empty map, and a rollback that restores `before` (calcium.SetNode when the node record cannot be updated) restores nothing — the capacity change survives the failed operation"
+					}
+				}
+				return true
+			})
+		}
+		r.check2(why, "SN", key, p.pos(fn.Decl), "before[plugin] = resp.Before is assigned for every answer, whatever err is")
+	}
 	for _, s := range sites {
 		if s.closures[0] == nil || s.closures[2] == nil {
 			continue
